@@ -289,6 +289,75 @@ func C06(r *h.Run) {
 		}
 	}
 
+	// ---- the response arrives while a LARGE request message is still being written (the peer
+	// read 32 KiB of it and answered): the write is cut short, and what the call reports is still
+	// what the response says ----
+	for _, proto := range []string{"connect", "grpc", "grpcweb"} {
+		for _, kind := range []string{"unary", "server", "client", "bidi"} {
+			if proto == "connect" && kind == "unary" {
+				continue // (not enveloped; covered by unary_connect)
+			}
+			for _, shape := range []string{"403", "503", "200-status-in-headers"} {
+				cfg := envCfg{Proto: proto}
+				hdr, _, _ := responseParts(cfg)
+				status, want := 200, connect.CodePermissionDenied
+				switch shape {
+				case "403":
+					status = 403
+				case "503":
+					status, want = 503, connect.CodeUnavailable
+				default:
+					if proto == "connect" {
+						continue
+					}
+					hdr.Set("Grpc-Status", "7")
+					hdr.Set("Grpc-Message", "denied")
+				}
+				big := bytes.Repeat([]byte("x"), 1<<20)
+				ec := &earlyClient{readBytes: 32 << 10, build: func() *http.Response {
+					return h.NewResponse(status, hdr.Clone(), h.NewChunkBody(nil, h.FinCleanEOF), nil)
+				}}
+				var callErr error
+				timedOut, p := withWatchdog(5*time.Second, func() {
+					cl := connect.NewClient[h.Raw, h.Raw](ec, "http://verif.local/verif.Svc/M", clientOpts(cfg, "")...)
+					switch kind {
+					case "unary":
+						_, callErr = cl.CallUnary(context.Background(), connect.NewRequest(&h.Raw{B: big}))
+					case "server":
+						st, err := cl.CallServerStream(context.Background(), connect.NewRequest(&h.Raw{B: big}))
+						if err != nil {
+							callErr = err
+							return
+						}
+						for st.Receive() {
+						}
+						callErr = st.Err()
+						_ = st.Close()
+					case "client":
+						st := cl.CallClientStream(context.Background())
+						_ = st.Send(&h.Raw{B: big})
+						_, callErr = st.CloseAndReceive()
+					default:
+						st := cl.CallBidiStream(context.Background())
+						_ = st.Send(&h.Raw{B: big})
+						_ = st.CloseRequest()
+						_, callErr = st.Receive()
+						_ = st.CloseResponse()
+					}
+				})
+				in := map[string]any{"proto": proto, "kind": kind, "response": shape, "request_message_bytes": len(big), "peer_read_before_answering": 32 << 10}
+				r.Eval("early_response_large_request", fmt.Sprint(proto, kind, shape))
+				if !check("early_response_large_request", in, callResult{err: callErr, timedOut: timedOut, panicked: p}) {
+					continue
+				}
+				r.Sample("early_response_large_request", map[string]any{"in": in, "error": fmt.Sprint(callErr)})
+				if callErr == nil || connect.CodeOf(callErr) != want {
+					r.Fail(h.Failure{Key: "client/status-derived-code", Family: "early_response_large_request", What: "the response was judged while a large request message was still being written: the call does not report what the response says", Input: in, Expected: want.String(), Actual: fmt.Sprint(callErr)})
+				}
+			}
+		}
+	}
+
 	// ---- streaming Connect / gRPC / gRPC-Web: every status ----
 	for _, proto := range []string{"connect", "grpc", "grpcweb"} {
 		for _, status := range statuses {
